@@ -415,6 +415,143 @@ class ValueFromPerson(Contract):
         return judge(nat)
 
 
+class Counting:
+    """ghost: CNT(k, g) = number of persons j < k of group g, with the consequences (lemma library of this module, instances for
+    this CNT) that the site contracts of members_position and nb_persons hand to their callers:
+      POS(i) = CNT(i, EID(i)), SIZE(g) = CNT(N, g);
+      L1 positions of two members of one group differ (increase with the person index);
+      L2 a member's position is below the size of its group;
+      L3 every rank below the size of a group is the position of one of its members: PW(g, r)."""
+
+    def __init__(self, ctx, w):
+        self.w = w
+        self.POS = z3.Function(ctx.fresh_name("POS"), z3.IntSort(), z3.IntSort())
+        self.SIZE = z3.Function(ctx.fresh_name("SIZE"), z3.IntSort(), z3.IntSort())
+        self.PW = z3.Function(ctx.fresh_name("MEMBER_AT"), z3.IntSort(), z3.IntSort(), z3.IntSort())
+        i, i2, g, r = z3.Int(ctx.fresh_name("ci")), z3.Int(ctx.fresh_name("ci2")), z3.Int(ctx.fresh_name("cg")), z3.Int(ctx.fresh_name("cr"))
+        POS, SIZE, PW, EID, N, G = self.POS, self.SIZE, self.PW, w.EID, w.N, w.G
+        ctx.assume(z3.ForAll([i], z3.Implies(z3.And(i >= 0, i < N), z3.And(POS(i) >= 0, POS(i) < SIZE(EID(i)))), patterns=[POS(i)]))                     # L2
+        ctx.assume(z3.ForAll([g], z3.Implies(z3.And(g >= 0, g < G), SIZE(g) >= 0), patterns=[SIZE(g)]))
+        ctx.assume(z3.ForAll([i, i2], z3.Implies(z3.And(0 <= i, i < i2, i2 < N, EID(i) == EID(i2)), POS(i) < POS(i2)),
+                             patterns=[z3.MultiPattern(POS(i), POS(i2))]))                                                                                 # L1
+        ctx.assume(z3.ForAll([g, r], z3.Implies(z3.And(g >= 0, g < G, r >= 0, r < SIZE(g)),
+                                                z3.And(PW(g, r) >= 0, PW(g, r) < N, EID(PW(g, r)) == g, POS(PW(g, r)) == r)), patterns=[PW(g, r)]))      # L3
+        ctx.assumed_ext.add("members_position / nb_persons at call sites: their verified contracts (position = number of earlier members of the same "
+                            "group, size = number of members) with the counting lemmas positions-distinct, position-below-size, every-rank-is-taken")
+
+
+def counting(ctx):
+    if "counting" not in ctx.ghost:
+        ctx.ghost["counting"] = Counting(ctx, ctx.ghost["gw"])
+    return ctx.ghost["counting"]
+
+
+class MembersPositionSite(Contract):
+    name = f"{GPOP}.members_position"
+    prop = ()
+
+    def outcomes(self, I, ctx, a, old):
+        c = counting(ctx)
+        return ("return", nparr.NArr(c.w.N, lambda i: Sym(c.POS(B._z(i))), "int", "members_position"))
+
+    def post(self, I, ctx, a, out, old):
+        return []
+
+
+class NbPersonsSite(Contract):
+    name = f"{GPOP}.nb_persons"
+    prop = ()
+
+    def outcomes(self, I, ctx, a, old):
+        if a.get("role") is not None:
+            raise Unsupported("nb_persons with a role at this call site")
+        c = counting(ctx)
+        return ("return", nparr.NArr(c.w.G, lambda g: Sym(c.SIZE(B._z(g))), "int", "nb_persons"))
+
+    def post(self, I, ctx, a, out, old):
+        return []
+
+
+class ValueNthPerson(Contract):
+    name = f"{GPOP}.value_nth_person"
+    prop = ("C10",)
+    top_level = True
+    descr = ("value_nth_person gives every group that has more than n members the value of its member at position n - whatever the "
+             "order in which persons are stored - and the default to the others")
+    inline = (f"{GPOP}.ordered_members_map",)
+
+    def setup(self, I, ctx, case):
+        w = GWorld(I, ctx)
+        ctx.ghost["gw"] = w
+        n = ctx.fresh_int("n")
+        ctx.assume(n >= 0)
+        ctx.ghost["n"] = n
+        D = ctx.fresh_real("default")
+        return {"self": w.pop, "n": Sym(n), "array": w.array, "default": Sym(D), "__w": w, "__D": D, "__n": n}
+
+    @staticmethod
+    def local_contracts():
+        d = GWorld.site_contracts(None)
+        d[MembersPositionSite.name] = MembersPositionSite()
+        d[NbPersonsSite.name] = NbPersonsSite()
+        d[f"{CPOP}.filled_array"] = rec(f"{CPOP}.filled_array", "filled_array",
+                                        [("return", lambda I, ctx, a: nparr.NArr(ctx.ghost["gw"].G, lambda g: a["value"], "float", "filled"))])
+        return d
+
+    @staticmethod
+    def _pairing_lemma(ctx, I, env):
+        """ghost statement before the masked assignment: groups with more than n members, in increasing order, and the groups of
+        the persons at position n taken in the order of the sorting permutation are the same enumeration"""
+        import ast
+        w, n = ctx.ghost["gw"], ctx.ghost["n"]
+        c = counting(ctx)
+        ev = lambda txt: I.eval(ctx, env, ast.parse(txt, mode="eval").body)
+        try:
+            mm = ev("members_map")
+            SIG, INV = mm.perm
+            enf = nparr.mask_enum(ctx, ev("nb_persons_per_entity > n"))
+            en2 = nparr.mask_enum(ctx, ev("positions[members_map] == n"))
+        except Exception:
+            return
+        f = lambda j: w.EID(SIG(en2.SEL(j)))
+        gf = lambda j: enf.SEL(j)
+        j, j2 = z3.Int(ctx.fresh_name("j_l")), z3.Int(ctx.fresh_name("j2_l"))
+        inc = lambda fn, cnt: z3.ForAll([j, j2], z3.Implies(z3.And(0 <= j, j < j2, j2 < cnt), fn(j) < fn(j2)))
+        wa = lambda x: enf.RNK(f(x))
+        wb = lambda x: en2.RNK(INV(c.PW(gf(x), n)))
+        ctx.apply_lemma("increasing-enumerations-of-the-same-set-coincide",
+                        [("persons-at-position-n-in-sorted-order-have-increasing-groups", inc(f, en2.cnt)),
+                         ("groups-with-more-than-n-members-are-enumerated-increasingly", inc(gf, enf.cnt)),
+                         ("the-group-of-a-person-at-position-n-has-more-than-n-members",
+                          z3.ForAll([j], z3.Implies(z3.And(j >= 0, j < en2.cnt), z3.And(wa(j) >= 0, wa(j) < enf.cnt, gf(wa(j)) == f(j))))),
+                         ("a-group-with-more-than-n-members-has-a-person-at-position-n",
+                          z3.ForAll([j], z3.Implies(z3.And(j >= 0, j < enf.cnt), z3.And(wb(j) >= 0, wb(j) < en2.cnt, f(wb(j)) == gf(j)))))],
+                        z3.And(en2.cnt == enf.cnt, z3.ForAll([j], z3.Implies(z3.And(j >= 0, j < enf.cnt), f(j) == gf(j)), patterns=[enf.SEL(j)])))
+
+    ghost_before = {("GroupPopulation.value_nth_person", "result[nb_persons_per_entity > n] ="): _pairing_lemma.__func__}
+
+    def post(self, I, ctx, a, out, old):
+        w, D, n = a["__w"], a["__D"], a["__n"]
+        if out[0] != "return" or not isinstance(out[1], nparr.NArr):
+            return [("returns-one-value-per-group", False)]
+        r = out[1]
+        c = counting(ctx)
+        g = ctx.fresh_int("g")
+        rng = z3.And(g >= 0, g < w.G)
+        return [("one-value-per-group", B._z(r.n) == w.G),
+                ("a-group-with-more-than-n-members-gets-the-value-of-its-member-at-position-n",
+                 z3.Implies(z3.And(rng, c.SIZE(g) > n), B.zreal(r.elem(g)) == w.A(c.PW(g, n)))),
+                ("a-group-with-at-most-n-members-gets-the-default", z3.Implies(z3.And(rng, c.SIZE(g) <= n), B.zreal(r.elem(g)) == D))]
+
+    def probes(self, case):
+        return [{"callee": self.name, "script": NATIVE, "op": "value_nth_person", "n": n, "count": 3, "eid": eid,
+                 "values": [10.0, 20.0, 30.0, 40.0, 50.0, 60.0][:len(eid)], "inrole": [False] * len(eid)}
+                for eid in ([1, 0, 0, 2, 0, 1], [2, 1, 0], [0, 0, 1], [1, 1, 0, 0]) for n in (0, 1, 2)]
+
+    def judge_native(self, I, case, call, nat):
+        return judge(nat)
+
+
 class ProjectorTransform(Contract):
     name = f"{PROJ}.projector.Projector.transform_and_bubble_up"
     prop = ("C10",)
@@ -525,6 +662,27 @@ def lemmas(prop, timeout_ms):
     mono = lambda x: C(x + 1) == C(x) + z3.If(M(x), 1, 0)
     L += [("positions-distinct.base", [], Q(z3.IntVal(0))),
           ("positions-distinct.step", [k >= 0, mono(k), mono(j), Q(k), z3.Implies(z3.And(j >= 0, j < k), C(j) <= C(k))], Q(k + 1))]
+    # counting lemmas for C(k) = #{j < k | M(j)} (the ghost CNT(., g) for a fixed group g, M(j) = "j is in g")
+    Cc = z3.Function("Cc_l", z3.IntSort(), z3.IntSort())
+    Mm = z3.Function("Mm_l", z3.IntSort(), z3.BoolSort())
+    Ww = z3.Function("Ww_l", z3.IntSort(), z3.IntSort(), z3.IntSort())
+    kk, rr, nn, jj = z3.Ints("kk rr nn jj")
+    rec_ = lambda x: Cc(x + 1) == Cc(x) + z3.If(Mm(x), 1, 0)
+    allrec = z3.ForAll([jj], z3.Implies(jj >= 0, rec_(jj)), patterns=[Cc(jj + 1)])
+    # monotone: j <= k -> C(j) <= C(k)    (induction on k)
+    Pm = lambda x: z3.ForAll([jj], z3.Implies(z3.And(jj >= 0, jj <= x), Cc(jj) <= Cc(x)), patterns=[Cc(jj)])
+    L += [("count-is-monotone.base", [], Pm(z3.IntVal(0))),
+          ("count-is-monotone.step", [kk >= 0, rec_(kk), Pm(kk)], Pm(kk + 1)),
+          # position below size: M(j), j < N -> C(j) < C(N)
+          ("position-is-below-the-size", [allrec, jj >= 0, jj < nn, Mm(jj), z3.ForAll([rr], z3.Implies(z3.And(rr >= 0, rr <= nn), Cc(rr) <= Cc(nn)), patterns=[Cc(rr)])],
+           Cc(jj) < Cc(nn))]
+    # every rank below the count is taken: r < C(k) -> some i < k with M(i) and C(i) = r   (induction on k, witness W(k, r))
+    Pw = lambda x: z3.ForAll([rr], z3.Implies(z3.And(rr >= 0, rr < Cc(x)), z3.And(Ww(x, rr) >= 0, Ww(x, rr) < x, Mm(Ww(x, rr)), Cc(Ww(x, rr)) == rr)),
+                             patterns=[Ww(x, rr)])
+    wit = z3.If(rr < Cc(kk), Ww(kk, rr), kk)
+    L += [("every-rank-is-taken.base", [Cc(0) == 0], Pw(z3.IntVal(0))),
+          ("every-rank-is-taken.step", [kk >= 0, Cc(0) == 0, rec_(kk), Pw(kk), rr >= 0, rr < Cc(kk + 1)],
+           z3.And(wit >= 0, wit < kk + 1, Mm(wit), Cc(wit) == rr))]
     # two strictly increasing enumerations of the same set coincide (strong induction on the position); used by value_from_person
     Fa = z3.Function("Fa_l", z3.IntSort(), z3.IntSort())
     Fb = z3.Function("Fb_l", z3.IntSort(), z3.IntSort())
@@ -545,4 +703,4 @@ def lemmas(prop, timeout_ms):
     return recs
 
 
-CONTRACTS = [GroupSum(), GroupNbPersons(), GroupAny(), GroupProject(), MembersPosition(), ValueFromPerson(), ProjectorTransform(), ProjectorTransforms(), ProjectorTransformsFirst(), ProjectorTransformsRole()]
+CONTRACTS = [GroupSum(), GroupNbPersons(), GroupAny(), GroupProject(), MembersPosition(), ValueFromPerson(), ValueNthPerson(), ProjectorTransform(), ProjectorTransforms(), ProjectorTransformsFirst(), ProjectorTransformsRole()]
